@@ -8,7 +8,14 @@
 //! answer: `ok <lb f32 bits> <ub f32 bits> <digits_ub | -> <k> (<x f32 bits> <f32::log2(x) bits>) * k`
 //!         the k pairs are the libm values the std estimator can ask for on this operand (the oracle runs the
 //!         transcribed f32 arithmetic around them)
-//! case:   `ordf A B` | `absf A B` | `cmpf A B`: as `ord` / `abs` / `cmp`, the answer followed by `t <k> pairs` for both operands
+//!         (round 4: the table is preceded by the word size, `w<Word::BITS in hex> <k> pairs`)
+//! case:   `ordf A B` | `absf A B` | `cmpf A B`: as `ord` / `abs` / `cmp`, the answer followed by `t w<bits> <k> pairs` for both operands
+//! case:   `lgchk LO HI`: the libm assumption lg_contract on every integer n in LO..=HI (a sub-range of 1..=2^24):
+//!         f32::log2(n as f32) is finite and its two f32 neighbours enclose log2 n, decided against an enclosure of
+//!         log2 n computed in integer arithmetic (bit-by-bit squaring, 62 fraction bits, separate lower / upper tracks)
+//! answer: `ok <count> <violations> <undecided> <k> (<n> <f32::log2 bits>) * k` - the pairs are the two ends, the worst
+//!         integer of the range (largest error in units of the f32 step) and a few more; the oracle re-decides them
+//!         with its own enclosure (arbitrary precision)
 use dashu_base::{AbsOrd, BitTest, EstimatedLog2, UnsignedAbs};
 use hlib::*;
 use num_order::{NumHash, NumOrd};
@@ -219,12 +226,13 @@ fn lg_inputs(u: &UBig, out: &mut Vec<f32>) {
         return;
     }
     let bits = u.bit_len();
+    let wb = Word::BITS as usize;
     // RefSmall: the double word itself; RefLarge: the two highest words
-    let x: u128 = if bits <= 128 {
+    let x: u128 = if bits <= 2 * wb {
         u128::try_from(u).unwrap()
     } else {
-        let words = (bits + 63) / 64;
-        u128::try_from(&(u >> (64 * (words - 2)))).unwrap()
+        let words = (bits + wb - 1) / wb;
+        u128::try_from(&(u >> (wb * (words - 2)))).unwrap()
     };
     if x.is_power_of_two() {
         return;
@@ -282,7 +290,7 @@ fn val_inputs(a: &Val, ins: &mut Vec<f32>) {
 }
 
 fn table(ins: &[f32]) -> String {
-    let mut s = format!("{:x}", ins.len());
+    let mut s = format!("w{:x} {:x}", Word::BITS, ins.len());
     for x in ins {
         s.push_str(&format!(" {:x} {:x}", x.to_bits(), x.log2().to_bits()));
     }
@@ -327,8 +335,100 @@ fn with_tables(ans: Option<String>, a: &Val, b: &Val) -> String {
     }
 }
 
+/// the neighbouring f32 values (not the library's next_up / next_down: an independent statement of the IEEE order)
+fn f32_up(x: f32) -> f32 {
+    if x == 0.0 {
+        f32::from_bits(1)
+    } else if x > 0.0 {
+        f32::from_bits(x.to_bits() + 1)
+    } else {
+        f32::from_bits(x.to_bits() - 1)
+    }
+}
+fn f32_down(x: f32) -> f32 {
+    -f32_up(-x)
+}
+
+const LG_K: u32 = 40;
+/// integer enclosure of log2 n: (lo, hi) in units of 2^-LG_K, lo <= log2 n * 2^LG_K <= hi
+fn log2_enclosure(n: u32) -> (u64, u64) {
+    let ip = 31 - n.leading_zeros();
+    if n.is_power_of_two() {
+        return ((ip as u64) << LG_K, (ip as u64) << LG_K); // exact
+    }
+    let x: u128 = (n as u128) << (62 - ip); // n / 2^ip in [1, 2) with 62 fraction bits, exact
+    let two: u128 = 1 << 63;
+    let (mut yl, mut yu) = (x, x);
+    let (mut sl, mut su) = (0u64, 0u64);
+    for k in 1..=LG_K {
+        // lower track: squares rounded down
+        let z = (yl * yl) >> 62;
+        if z >= two {
+            sl |= 1 << (LG_K - k);
+            yl = z >> 1;
+        } else {
+            yl = z;
+        }
+        // upper track: squares rounded up (yu stays in [1, 2])
+        let p = yu * yu;
+        let z = (p >> 62) + ((p & ((1 << 62) - 1) != 0) as u128);
+        if z >= two {
+            su |= 1 << (LG_K - k);
+            yu = (z >> 1) + (z & 1);
+        } else {
+            yu = z;
+        }
+    }
+    let base = (ip as u64) << LG_K;
+    (base + sl, base + su + 1)
+}
+
+fn lgchk(lo: u32, hi: u32) -> String {
+    assert!(1 <= lo && lo <= hi && hi <= 1 << 24);
+    let scale = (1u64 << LG_K) as f64;
+    let (mut bad, mut und) = (0u64, 0u64);
+    let mut worst = (lo, -1.0f64);
+    let mut first_bad: Option<u32> = None;
+    for n in lo..=hi {
+        let y = (n as f32).log2();
+        if !y.is_finite() {
+            bad += 1;
+            first_bad.get_or_insert(n);
+            continue;
+        }
+        let (el, eu) = log2_enclosure(n);
+        let (el, eu) = (el as f64, eu as f64); // below 2^53: exact
+        let dn = f32_down(y) as f64 * scale; // exact (scaling by a power of two)
+        let up = f32_up(y) as f64 * scale;
+        if dn > eu || up < el {
+            bad += 1;
+            first_bad.get_or_insert(n);
+        } else if !(dn <= el && eu <= up) {
+            und += 1;
+        }
+        let err = ((y as f64) * scale - (el + eu) / 2.0).abs() / (up - (y as f64) * scale);
+        if err > worst.1 {
+            worst = (n, err);
+        }
+    }
+    let mut picks = vec![lo, hi, worst.0];
+    if let Some(b) = first_bad {
+        picks.push(b);
+    }
+    let span = hi - lo;
+    for j in 1..6u32 {
+        picks.push(lo + ((span as u64 * j as u64) / 6) as u32);
+    }
+    let mut s = format!("ok {:x} {:x} {:x} {:x}", (hi - lo) as u64 + 1, bad, und, picks.len());
+    for n in picks {
+        s.push_str(&format!(" {:x} {:x}", n, (n as f32).log2().to_bits()));
+    }
+    s
+}
+
 fn run(op: &str, a: &[&str]) -> String {
     match op {
+        "lgchk" => lgchk(u32::from_str_radix(a[0], 16).unwrap(), u32::from_str_radix(a[1], 16).unwrap()),
         "est" => est(&parse(a[0])),
         "ordf" => {
             let (x, y) = (parse(a[0]), parse(a[1]));
